@@ -174,8 +174,31 @@ def _atomize(expr):
     return out, rel, gens
 
 
-def prove_identity(lhs, rhs, timeout_s=60):
-    """lhs, rhs: z3 Real terms.  -> (ok, detail)"""
+class _Timeout(Exception):
+    pass
+
+
+def prove_identity(lhs, rhs, timeout_s=90):
+    """lhs, rhs: z3 Real terms.  -> (ok, detail); gives up (False, 'timeout') after timeout_s seconds of normalisation"""
+    import signal
+
+    def _alarm(signum, frame):
+        raise _Timeout()
+    try:
+        old = signal.signal(signal.SIGALRM, _alarm)
+    except ValueError:                      # not in the main thread: no time limit available
+        return _prove_identity(lhs, rhs)
+    signal.alarm(int(timeout_s))
+    try:
+        return _prove_identity(lhs, rhs)
+    except _Timeout:
+        return False, "ring normaliser gave up after %d s" % timeout_s
+    finally:
+        signal.alarm(0)
+        signal.signal(signal.SIGALRM, old)
+
+
+def _prove_identity(lhs, rhs):
     t0 = time.time()
     env = {}
     try:
